@@ -173,6 +173,28 @@ def plan_chunked(families, nreq=(1, 7)):
     return plan
 
 
+def with_watcher(plan, every=9, conn=99):
+    """an extra connection WATCHes every pool key and renews the watch regularly: any notification the model does not
+    predict (e.g. a failing command that marks its key modified) shows as a difference of that connection's state"""
+    def p(s, rng):
+        keys = list(gen.ALLKEYS)
+        n = 0
+        started = False
+        for ev in plan(s, rng):
+            yield ev
+            if not started and ev[0] == 'open':
+                continue
+            if not started:
+                started = True
+                yield ('open', conn)
+                yield ('cmd', conn, [b'watch'] + keys)
+            n += 1
+            if n % every == 0:
+                yield ('cmd', conn, [b'unwatch'])
+                yield ('cmd', conn, [b'watch'] + keys)
+    return p
+
+
 # ----------------------------------------------------------------------------- generic runner
 def run_campaign(res, prop, plan, n_hist, seed, scope, observers=(), versions=(6, 7), max_findings=3, deadline=None,
                  compare_state=True):
